@@ -443,6 +443,18 @@ def rule_f3_f4(ck, prog, S):
     g = S.pg(wnl)
     wr = list(wnl.calls("writeData"))
     fl = list(wnl.calls("flushData"))
+    if not fl:
+        # the transport wrapper written out in place: the call of the flush call-back itself (its guard only asks whether
+        # the call-back exists; edges taken because it does not are not paths that "skip the flush")
+        fl = [c for c in wnl.calls() if c.get("callee") is None and "flush" in (c.get("callee_path") or c.src)]
+
+    def no_callback_edge(e):
+        if e.kind != "edge" or not e.label or e.label[0] != "false" or e.label[1] is None:
+            return False
+        leaves = [x for x in e.label[1].walk() if x.k in ("DeclRefExpr", "MemberExpr") and
+                  not any(y is not x and y.k in ("DeclRefExpr", "MemberExpr") and x in y.walk() for y in e.label[1].walk())]
+        c_ = e.label[1].strip_all_casts()
+        return c_.get("tk") == "ptr" and ("flush" in c_.src or "interface" in c_.src or c_.src.strip() == "context")
     st = K.site(wnl, "ending+flush", 0)
     le = prog.macros.get("SCPI_LINE_ENDING")
     if len(wr) != 1 or len(fl) != 1:
@@ -457,7 +469,7 @@ def rule_f3_f4(ck, prog, S):
         gf = g.before(fl[0]) not in r0
         extra = [a.src for a, pol in fw if not (a.get("path") or "").endswith("->first_output")
                  and not (a.k == "UnaryOperator")]
-        reach = g.reachable([g.after(wr[0])], blocked_edge=lambda e: e.kind == "elem" and e.node in fl)
+        reach = g.reachable([g.after(wr[0])], blocked_edge=lambda e: (e.kind == "elem" and e.node in fl) or no_callback_edge(e))
         # on the responded edge both must happen: entry -> exit avoiding them only via first_output true
         r2 = g.reachable([g.entry], blocked_edge=lambda e: (e.kind == "elem" and e.node in wr) or
                          (e.kind == "edge" and e.label[0] == "false" and e.label[1] is not None and
